@@ -1,14 +1,14 @@
 (* C12 — nested containers are differentiated leaf-wise; flatten commutes
    with differentiation.  Proved for every nesting, over any commutative ring:
    the container primitives are linear and their registered VJPs are the
-   adjoints (integer indices incl. negative, dict keys, + on both sides);
+   adjoints (integer indices incl. negative, slices with any Python bounds, dict keys, + on both sides);
    flatten/unflatten are mutually inverse, linear, isometric, and flatten is the
    adjoint of unflatten (so grad (f o unflatten) = flatten o grad f).
-   Slices, the constructors, iteration and dict methods are decided on the
+   Stepped slices, the constructors, iteration and dict methods are decided on the
    implementation by the exact adjoint identity over a full basis. *)
 From Coq Require Import List Arith ZArith Ring.
 Import ListNotations.
-From AG Require Import VSpace VSpaceProof ContainerOps ContainerProof Run13.
+From AG Require Import VSpace VSpaceProof ContainerOps ContainerProof ContainerSlice Run13.
 
 Section ContainerLaws.
   Variable K : Type.
@@ -24,6 +24,13 @@ Section ContainerLaws.
               /\ vspace u = vspace (Seq t l)
               /\ inner (Seq t l) u = inner c g.
   Proof. exact (take_untake_adjoint_int K k0 k1 kadd kmul ksub kopp Kring t l i c g). Qed.
+
+  Theorem C12_slice_vjp_is_adjoint t l a b c t' gl :
+    wf (Seq t l) -> take K (Seq t l) (ISlice a b) = Some (Seq t c) -> map vspace gl = map vspace c ->
+    exists u, untake K k0 (Seq t' gl) (ISlice a b) (vspace (Seq t l)) = Some u
+              /\ vspace u = vspace (Seq t l)
+              /\ inner (Seq t l) u = inner (Seq t c) (Seq t' gl).
+  Proof. exact (take_untake_adjoint_slice K k0 k1 kadd kmul ksub kopp Kring t l a b c t' gl). Qed.
 
   Theorem C12_key_vjp_is_adjoint l k c g :
     wf (Dct l) -> take K (Dct l) (IKey k) = Some c ->
@@ -71,6 +78,7 @@ Section ContainerLaws.
 End ContainerLaws.
 
 Print Assumptions C12_index_vjp_is_adjoint.
+Print Assumptions C12_slice_vjp_is_adjoint.
 Print Assumptions C12_key_vjp_is_adjoint.
 Print Assumptions C12_concat_right_vjp_is_adjoint.
 Print Assumptions C12_indexing_linear.
